@@ -14,7 +14,7 @@ from .worlds import INEXACT, MISSING, NANQ, SCALE, f2q
 
 # ------------------------------------------------------------------ variables
 def add_data_vars(w: dict, rng: random.Random, *, rich: bool = True, late: bool = False, packed: bool = False,
-                  ksize: int | None = None) -> None:
+                  ksize: int | None = None, odd_floats: bool = False) -> None:
     """Attach extra dimensions and tagged data variables to a geometric world."""
     tname = "time" if w["conv"] == "shoc_simple" else "t"
     extras = [{"name": "t", "size": 2, "coord": {"name": tname, "kind": "time", "values": [0, 6]}},
@@ -35,7 +35,7 @@ def add_data_vars(w: dict, rng: random.Random, *, rich: bool = True, late: bool 
         v = {"name": name, "kind": kind, "dims": dims, "dtype": dtype, "base": base}
         _, shape = W.var_dims_shape(w, v)
         n = int(numpy.prod(shape)) if shape else 1
-        if missing_frac and dtype.startswith("f"):
+        if missing_frac and numpy.dtype(dtype).kind == "f":
             v["missing"] = sorted(rng.sample(range(n), max(1, int(n * missing_frac))))
         specs.append(v)
         base += n + 7
@@ -58,6 +58,14 @@ def add_data_vars(w: dict, rng: random.Random, *, rich: bool = True, late: bool 
         add("packed", "face", ["t"] + list(g), "f8", 0.2)
         specs[-1]["encoding"] = {"dtype": "int16", "scale_factor": 1.0, "add_offset": float(specs[-1]["base"] - 5), "_FillValue": 0}
     add("pv", "face", list(g), "f4", 0.1)
+    if odd_floats:
+        # floating point data that is not native float64 (single precision, big-endian doubles as in netCDF-3 files), each
+        # with a missing value in a cell that HAS geometry (an ordinary dry-cell marker)
+        from . import geoworlds as _GW
+        valid = [n for n, ring in enumerate(_GW.abstract_polys(w)) if ring]
+        for name, dt in (("single", "f4"), ("bigend", ">f8")):
+            add(name, "face", list(g), dt)
+            specs[-1]["missing"] = valid[1:2] or valid[:1]
     if late:       # a variable that is added to the dataset later, in place (Mutate events)
         add("late_face", "face", ["t"] + list(g), "f8")
         specs[-1]["late"] = True
@@ -166,7 +174,14 @@ def run_event(w, ds, conv, e: dict) -> dict:
         e["obs"] = outcome(lambda: proj_array(e["var"], conv.ravel(ds[e["var"]])))
     elif a == "SelectIndex":
         def sel():
-            idx = conv.wind_index(e["n"], grid_kind=kind_enum(e["kind"]))
+            if e.get("api") == "unravel_index":
+                # the older (deprecated, still public) name, grid kind passed positionally
+                import warnings
+                with warnings.catch_warnings():
+                    warnings.simplefilter("ignore")
+                    idx = conv.unravel_index(e["n"], kind_enum(e["kind"]))
+            else:
+                idx = conv.wind_index(e["n"], grid_kind=kind_enum(e["kind"]))
             return {"vars": proj_dataset(conv.select_index(idx))}
         e["obs"] = outcome(sel)
     elif a == "Query":
